@@ -250,7 +250,8 @@ fn probe<T: Elem>(t: &TooDee<T>, out: &mut Vec<u64>) {
     let (a1, a2): (&[T], &Vec<T>) = (t.as_ref(), t.as_ref());
     let same_buf = a1.as_ptr() == d.as_ptr() && a1.len() == d.len() && a2.as_ptr() == d.as_ptr() && a2.len() == d.len();
     // is_empty() / size() (trait defaults) agree with the dimensions and the buffer
-    let consistent = same_buf && TooDeeOps::is_empty(t) == d.is_empty() && t.size() == (t.num_cols(), t.num_rows());
+    // ... and the buffer never claims more cells than it has room for
+    let consistent = same_buf && TooDeeOps::is_empty(t) == d.is_empty() && t.size() == (t.num_cols(), t.num_rows()) && t.capacity() >= d.len();
     out.push(if consistent { d.len() as u64 } else { u64::MAX });
     out.extend(d.iter().map(|x| x.val() as u64));
     let drops = ledger_take_step_drops();
